@@ -76,7 +76,7 @@ var (
 	reCanonInt = regexp.MustCompile(`^(0|[1-9][0-9]*)$`)
 	reCanonDec = regexp.MustCompile(`^(0|[1-9][0-9]*)\.[0-9]+$`)
 	reDate     = regexp.MustCompile(`^[0-9]{4}-[0-9]{2}-[0-9]{2}$`)
-	reTime     = regexp.MustCompile(`^[0-9]{4}-[0-9]{2}-[0-9]{2}T[0-9]{2}:[0-9]{2}:[0-9]{2}(Z|[+-][0-9]{2}:[0-9]{2})$`)
+	reTime     = regexp.MustCompile(`^[0-9]{4}-[0-9]{2}-[0-9]{2}T[0-9]{2}:[0-9]{2}:[0-9]{2}(\.[0-9]{1,9})?(Z|[+-][0-9]{2}:[0-9]{2})$`)
 )
 
 func ratOf(s string) *big.Rat {
@@ -88,17 +88,78 @@ func ratOf(s string) *big.Rat {
 	return r
 }
 
-// instantOf interprets a value as a calendar date (midnight UTC) or an RFC3339 time.
+// instantOf interprets a value as a calendar date (midnight UTC) or an RFC3339 time (any UTC offset, optional
+// fractional seconds) and returns the INSTANT it denotes, as a UTC time. It does its own field arithmetic (no
+// time.Parse), so that the reference compares instants and never representations.
 func instantOf(s string) (time.Time, bool) {
+	num := func(x string) int {
+		n := 0
+		for _, ch := range x {
+			n = n*10 + int(ch-'0')
+		}
+		return n
+	}
 	switch {
 	case reDate.MatchString(s):
-		t, err := time.Parse("2006-01-02", s)
-		return t, err == nil
+		y, m, d := num(s[0:4]), num(s[5:7]), num(s[8:10])
+		t := time.Date(y, time.Month(m), d, 0, 0, 0, 0, time.UTC)
+		if t.Year() != y || int(t.Month()) != m || t.Day() != d {
+			return time.Time{}, false // no calendar date
+		}
+		return t, true
 	case reTime.MatchString(s):
-		t, err := time.Parse(time.RFC3339, s)
-		return t, err == nil
+		y, m, d := num(s[0:4]), num(s[5:7]), num(s[8:10])
+		hh, mi, ss := num(s[11:13]), num(s[14:16]), num(s[17:19])
+		rest := s[19:]
+		ns := 0
+		if strings.HasPrefix(rest, ".") {
+			i := 1
+			for i < len(rest) && rest[i] >= '0' && rest[i] <= '9' {
+				i++
+			}
+			frac := rest[1:i]
+			ns = num((frac + "000000000")[:9])
+			rest = rest[i:]
+		}
+		if hh > 23 || mi > 59 || ss > 59 {
+			return time.Time{}, false
+		}
+		t := time.Date(y, time.Month(m), d, hh, mi, ss, ns, time.UTC)
+		if t.Year() != y || int(t.Month()) != m || t.Day() != d {
+			return time.Time{}, false
+		}
+		if rest != "Z" {
+			oh, om := num(rest[1:3]), num(rest[4:6])
+			if oh > 23 || om > 59 {
+				return time.Time{}, false
+			}
+			off := time.Duration(oh)*time.Hour + time.Duration(om)*time.Minute
+			if rest[0] == '+' {
+				t = t.Add(-off)
+			} else {
+				t = t.Add(off)
+			}
+		}
+		return t, true
 	}
 	return time.Time{}, false
+}
+
+// renderInstant writes the instant t with the UTC offset offMin (minutes); z: write a zero offset as "Z";
+// frac: digits of fractional seconds to print (0 = none; only values may carry them, the query grammar has none).
+func renderInstant(t time.Time, offMin int, z bool, frac int) string {
+	l := t.UTC().Add(time.Duration(offMin) * time.Minute)
+	s := fmt.Sprintf("%04d-%02d-%02dT%02d:%02d:%02d", l.Year(), int(l.Month()), l.Day(), l.Hour(), l.Minute(), l.Second())
+	if frac > 0 {
+		s += "." + fmt.Sprintf("%09d", l.Nanosecond())[:frac]
+	}
+	switch {
+	case offMin == 0 && z:
+		return s + "Z"
+	case offMin < 0:
+		return s + fmt.Sprintf("-%02d:%02d", -offMin/60, -offMin%60)
+	}
+	return s + fmt.Sprintf("+%02d:%02d", offMin/60, offMin%60)
 }
 
 func cmpHolds(op string, c int) bool {
@@ -214,6 +275,26 @@ func (q gquery) eval(events map[string][]string) tri {
 		return triT
 	}
 	return triU
+}
+
+// equalInstantOtherSpelling: some "=" condition with a DATE/TIME operand meets a value that denotes the same
+// instant but is written differently (other UTC offset, "Z" vs "+00:00", fractional zeros, date vs its midnight).
+func (q gquery) equalInstantOtherSpelling(events map[string][]string) bool {
+	for _, c := range q.Conds {
+		if c.Op != "=" || (c.Kind != "time" && c.Kind != "date") {
+			continue
+		}
+		o, ok := instantOf(c.Lit)
+		if !ok {
+			continue
+		}
+		for _, v := range events[c.Key] {
+			if t, ok := instantOf(v); ok && t.Equal(o) && v != c.Lit {
+				return true
+			}
+		}
+	}
+	return false
 }
 
 func (q gquery) hasBadOperand() bool {
